@@ -378,6 +378,12 @@ impl Run {
                 jobs.push((prof, bin.clone(), 1000 + r));
             }
         }
+        // the children get this run's model tables instead of rebuilding them (0.35 s each)
+        let tables_file = self.root.join("harness/target").join(format!("model-tables-{}.bin", std::process::id()));
+        let tables_env: Option<String> = match crate::model::poker::save_tables(crate::model::poker::tables(), &tables_file.to_string_lossy()) {
+            Ok(()) => Some(tables_file.to_string_lossy().to_string()),
+            Err(_) => None,
+        };
         let batch: usize = std::env::var("VERIF_COLD_BATCH").ok().and_then(|s| s.parse().ok()).unwrap_or(2);
         let n = jobs.len() as u64;
         let mut ran = 0u64;
@@ -393,6 +399,7 @@ impl Run {
                     .arg(format!("{}", self.seed as i64))
                     .arg("--cold")
                     .arg(format!("{}", code))
+                    .env("VERIF_TABLES_FILE", tables_env.clone().unwrap_or_default())
                     .env("VERIF_ROOT", &self.root)
                     .stdout(std::process::Stdio::piped())
                     .stderr(std::process::Stdio::null())
@@ -426,6 +433,7 @@ impl Run {
                 break;
             }
         }
+        let _ = std::fs::remove_file(&tables_file);
         self.evaluations += ran;
         self.generators.push(json!({"name": "fresh child processes: a stress pass run from 16 barrier-released threads as the first calls into the crate", "kind": "concurrent cold start (not schedule-controlled)", "cases": n, "children_that_ran_a_pass": ran, "note": "both build profiles x (12 repetitions of the first stress pass + 4 of the second), each repetition starting on different items; children run two at a time; finds first-use races (lazily built state) only with the probability of the interleaving"}));
         if let Some((_prof, v)) = failure {
